@@ -85,7 +85,15 @@ func (fr *Frame) stack() string {
 }
 
 func (m *Machine) runtimePanic(fr *Frame, msg string) {
-	panic(targetPanic{runtime: msg, where: fr.where()})
+	w := fr.where()
+	if fr != nil {
+		n := 0
+		for f := fr.caller; f != nil && n < 6; f = f.caller {
+			w += " <- " + f.where()
+			n++
+		}
+	}
+	panic(targetPanic{runtime: msg, where: w})
 }
 
 func (fr *Frame) get(key ssa.Value) Value {
